@@ -5,14 +5,16 @@ import (
 	"io"
 	"sort"
 	"strconv"
+	"strings"
 
 	remoteexecution "github.com/bazelbuild/remote-apis/build/bazel/remote/execution/v2"
 	"github.com/buildbarn/bb-storage/pkg/auth"
+	auth_configuration "github.com/buildbarn/bb-storage/pkg/auth/configuration"
 	"github.com/buildbarn/bb-storage/pkg/blobstore"
 	"github.com/buildbarn/bb-storage/pkg/blobstore/buffer"
 	"github.com/buildbarn/bb-storage/pkg/blobstore/slicing"
 	"github.com/buildbarn/bb-storage/pkg/digest"
-	"github.com/buildbarn/bb-storage/pkg/util"
+	auth_pb "github.com/buildbarn/bb-storage/pkg/proto/configuration/auth"
 
 	"google.golang.org/grpc/codes"
 	"google.golang.org/grpc/status"
@@ -22,22 +24,90 @@ func init() { props["C18"] = c18{} }
 
 type c18 struct{}
 
-// names 0..5 -> instance names; chosen so that some are component prefixes
-// of others (irrelevant to authorizers, which see opaque names).
+// Input: (get put fm op names).  names is the name alphabet of the case
+// (instance name strings as byte lists, pairwise distinct, all accepted by
+// digest.NewInstanceName); operations and scripted leaves refer to names by
+// index.  A tree is (0 id (verdicts)) = scripted leaf, (1 (members)) = 'any',
+// (2 (prefixes)) = the static authorizer of the policy instance_name_prefix,
+// built through pkg/auth/configuration's BaseAuthorizerFactory.
+
+// The legacy alphabet: some names are component prefixes of others, "ab" is
+// a string-but-not-component extension of "a".
 var c18Names = []string{"", "a", "a/b", "ab", "c", "a/b/c"}
 
-func c18Name(i int) digest.InstanceName {
-	return util.Must(digest.NewInstanceName(c18Names[i%len(c18Names)]))
+// c18Str decodes a byte-list string; ok=false unless every item is an atom
+// 1..255.
+func c18Str(s Sx) (string, bool) {
+	if s.IsAtom {
+		return "", false
+	}
+	b := make([]byte, len(s.List))
+	for i, x := range s.List {
+		if !x.IsAtom || x.Z < 1 || x.Z > 255 {
+			return "", false
+		}
+		b[i] = byte(x.Z)
+	}
+	return string(b), true
 }
 
-func c18NameIndex(in digest.InstanceName) int {
-	s := in.String()
-	for i, n := range c18Names {
-		if n == s {
-			return i
-		}
+func c18IsNat(s Sx) bool { return s.IsAtom && s.Z >= 0 && s.Z < 1<<30 }
+
+// c18TreeOK accepts exactly the shapes the Coq decoder understands (and ()
+// = the scripted leaf 0 with an empty table, as in the corpus).
+func c18TreeOK(s Sx, depth int) bool {
+	if s.IsAtom || depth > 12 {
+		return false
 	}
-	return -1
+	if len(s.List) == 0 {
+		return true
+	}
+	if !s.List[0].IsAtom {
+		return false
+	}
+	switch s.List[0].Z {
+	case 0:
+		if len(s.List) != 3 || !c18IsNat(s.List[1]) || s.List[2].IsAtom {
+			return false
+		}
+		for _, v := range s.List[2].List {
+			if !c18IsNat(v) {
+				return false
+			}
+		}
+		return true
+	case 1:
+		if len(s.List) != 2 || s.List[1].IsAtom {
+			return false
+		}
+		for _, c := range s.List[1].List {
+			if !c18TreeOK(c, depth+1) {
+				return false
+			}
+		}
+		return true
+	case 2:
+		if len(s.List) != 2 || s.List[1].IsAtom {
+			return false
+		}
+		for _, p := range s.List[1].List {
+			ps, ok := c18Str(p)
+			if !ok {
+				return false
+			}
+			if _, err := digest.NewInstanceName(ps); err != nil {
+				return false
+			}
+		}
+		return true
+	}
+	return false
+}
+
+type c18Env struct {
+	names []string
+	index map[string]int
+	log   []c18Call
 }
 
 type c18Call struct {
@@ -48,14 +118,17 @@ type c18Call struct {
 type c18Leaf struct {
 	id  int
 	tbl []int
-	log *[]c18Call
+	env *c18Env
 }
 
 func (l *c18Leaf) Authorize(ctx context.Context, instanceNames []digest.InstanceName) []error {
 	errs := make([]error, 0, len(instanceNames))
 	names := make([]int, 0, len(instanceNames))
 	for _, in := range instanceNames {
-		i := c18NameIndex(in)
+		i, found := l.env.index[in.String()]
+		if !found {
+			i = -1
+		}
 		names = append(names, i)
 		v := 7
 		if i >= 0 && i < len(l.tbl) {
@@ -67,19 +140,44 @@ func (l *c18Leaf) Authorize(ctx context.Context, instanceNames []digest.Instance
 			errs = append(errs, status.Error(codes.Code(v), "verdict "+strconv.Itoa(v)))
 		}
 	}
-	*l.log = append(*l.log, c18Call{id: l.id, names: names})
+	l.env.log = append(l.env.log, c18Call{id: l.id, names: names})
 	return errs
 }
 
-func c18Build(s Sx, log *[]c18Call) auth.Authorizer {
-	if s.Nth(0).Int() == 0 {
-		return &c18Leaf{id: s.Nth(1).Int(), tbl: s.Nth(2).Ints(), log: log}
+// c18Build builds the real authorizer of a (validated) tree.  The prefix
+// leaf goes through the configuration factory, exactly like a
+// bb_storage configuration with instance_name_prefix would (no group and
+// no gRPC client factory are needed for this policy).
+func c18Build(s Sx, env *c18Env) (auth.Authorizer, bool) {
+	switch s.Nth(0).Int() {
+	case 0:
+		return &c18Leaf{id: s.Nth(1).Int(), tbl: s.Nth(2).Ints(), env: env}, true
+	case 2:
+		ps := []string{}
+		for _, p := range s.Nth(1).List {
+			x, _ := c18Str(p)
+			ps = append(ps, x)
+		}
+		a, err := auth_configuration.BaseAuthorizerFactory{}.NewAuthorizerFromConfiguration(
+			&auth_pb.AuthorizerConfiguration{
+				Policy: &auth_pb.AuthorizerConfiguration_InstanceNamePrefix{
+					InstanceNamePrefix: &auth_pb.InstanceNameAuthorizer{AllowedInstanceNamePrefixes: ps},
+				},
+			}, nil, nil)
+		if err != nil {
+			return nil, false
+		}
+		return a, true
 	}
 	var ms []auth.Authorizer
 	for _, c := range s.Nth(1).List {
-		ms = append(ms, c18Build(c, log))
+		m, ok := c18Build(c, env)
+		if !ok {
+			return nil, false
+		}
+		ms = append(ms, m)
 	}
-	return auth.NewAnyAuthorizer(ms)
+	return auth.NewAnyAuthorizer(ms), true
 }
 
 type c18Backend struct {
@@ -119,20 +217,74 @@ func (c countingReadCloser) Close() error                { *c.closed++; return n
 
 const c18Hash = "8b1a9953c4611296a827abf8c47804d7"
 
-func c18Digest(name int, i int) digest.Digest {
+func c18Digest(name string, i int) digest.Digest {
 	h := []byte(c18Hash)
 	h[len(h)-1] = "0123456789abcdef"[i%16]
-	return digest.MustNewDigest(c18Names[name%len(c18Names)], remoteexecution.DigestFunction_MD5, string(h), 5)
+	h[len(h)-2] = "0123456789abcdef"[(i/16)%16]
+	return digest.MustNewDigest(name, remoteexecution.DigestFunction_MD5, string(h), 5)
 }
 
 func (c18) Exec(in Sx) (Sx, bool) {
-	if in.Len() != 4 {
+	if in.IsAtom || in.Len() != 5 || in.Nth(4).IsAtom || in.Nth(3).IsAtom {
 		return Sx{}, false
 	}
-	var log []c18Call
-	get := c18Build(in.Nth(0), &log)
-	put := c18Build(in.Nth(1), &log)
-	fm := c18Build(in.Nth(2), &log)
+	env := &c18Env{index: map[string]int{}}
+	for i, n := range in.Nth(4).List {
+		name, ok := c18Str(n)
+		if !ok {
+			return Sx{}, false
+		}
+		if _, err := digest.NewInstanceName(name); err != nil {
+			return Sx{}, false
+		}
+		if _, dup := env.index[name]; dup {
+			return Sx{}, false
+		}
+		env.index[name] = i
+		env.names = append(env.names, name)
+	}
+	// every name index of the operation must be an atom inside the alphabet
+	opS := in.Nth(3)
+	if opS.Len() < 2 || !opS.Nth(0).IsAtom {
+		return Sx{}, false
+	}
+	var idx []Sx
+	switch opS.Nth(0).Z {
+	case 0, 2:
+		if opS.Len() != 2 {
+			return Sx{}, false
+		}
+		idx = opS.List[1:2]
+	case 1:
+		if opS.Len() != 3 {
+			return Sx{}, false
+		}
+		idx = opS.List[1:3]
+	case 3:
+		if opS.Len() != 2 || opS.Nth(1).IsAtom || opS.Nth(1).Len() > 200 {
+			return Sx{}, false
+		}
+		idx = opS.Nth(1).List
+	default:
+		return Sx{}, false
+	}
+	for _, x := range idx {
+		if !x.IsAtom || x.Z < 0 || x.Z >= int64(len(env.names)) {
+			return Sx{}, false
+		}
+	}
+	for k := 0; k < 3; k++ {
+		if !c18TreeOK(in.Nth(k), 0) {
+			return Sx{}, false
+		}
+	}
+	get, ok1 := c18Build(in.Nth(0), env)
+	put, ok2 := c18Build(in.Nth(1), env)
+	fm, ok3 := c18Build(in.Nth(2), env)
+	if !ok1 || !ok2 || !ok3 {
+		return Sx{}, false
+	}
+	name := func(s Sx) string { return env.names[s.Int()] }
 	backend := &c18Backend{}
 	ba := blobstore.NewAuthorizingBlobAccess(backend, get, put, fm)
 	ctx := context.Background()
@@ -141,12 +293,12 @@ func (c18) Exec(in Sx) (Sx, bool) {
 	bufState := 0
 	switch op.Nth(0).Int() {
 	case 0:
-		_, err = ba.Get(ctx, c18Digest(op.Nth(1).Int(), 0)).ToByteSlice(100)
+		_, err = ba.Get(ctx, c18Digest(name(op.Nth(1)), 0)).ToByteSlice(100)
 	case 1:
-		_, err = ba.GetFromComposite(ctx, c18Digest(op.Nth(1).Int(), 0), c18Digest(op.Nth(2).Int(), 1), nil).ToByteSlice(100)
+		_, err = ba.GetFromComposite(ctx, c18Digest(name(op.Nth(1)), 0), c18Digest(name(op.Nth(2)), 1), nil).ToByteSlice(100)
 	case 2:
 		closed := 0
-		d := c18Digest(op.Nth(1).Int(), 0)
+		d := c18Digest(name(op.Nth(1)), 0)
 		b := buffer.NewCASBufferFromReader(d, countingReadCloser{r: &emptyReader{}, closed: &closed}, buffer.UserProvided)
 		err = ba.Put(ctx, d, b)
 		switch {
@@ -160,7 +312,7 @@ func (c18) Exec(in Sx) (Sx, bool) {
 	case 3:
 		sb := digest.NewSetBuilder(0)
 		for i, n := range op.Nth(1).List {
-			sb.Add(c18Digest(n.Int(), i))
+			sb.Add(c18Digest(name(n), i))
 		}
 		_, err = ba.FindMissing(ctx, sb.Build())
 	default:
@@ -175,7 +327,7 @@ func (c18) Exec(in Sx) (Sx, bool) {
 		code = int(status.Code(err))
 	}
 	calls := []Sx{}
-	for _, c := range log {
+	for _, c := range env.log {
 		ns := append([]int(nil), c.names...)
 		if op.Nth(0).Int() == 3 {
 			sort.Ints(ns)
@@ -191,22 +343,194 @@ func (emptyReader) Read(p []byte) (int, error) { return 0, io.EOF }
 
 var c18Verdicts = []int{0, 0, 7, 7, 7, 13, 14, 16}
 
-func c18GenTree(r *Rand, depth int, nextID *int) Sx {
+func c18GenLeaf(r *Rand, nextID *int, nNames int) Sx {
+	id := *nextID
+	*nextID++
+	tbl := make([]int, nNames)
+	for i := range tbl {
+		tbl[i] = r.Pick(c18Verdicts)
+	}
+	return L(A(0), AI(id), LInts(tbl))
+}
+
+// c18GenTree: leaf() yields a leaf (scripted or prefix).
+func c18GenTree(r *Rand, depth int, leaf func() Sx) Sx {
 	if depth == 0 || r.Chance(45) {
-		id := *nextID
-		*nextID++
-		tbl := make([]int, len(c18Names))
-		for i := range tbl {
-			tbl[i] = r.Pick(c18Verdicts)
-		}
-		return L(A(0), AI(id), LInts(tbl))
+		return leaf()
 	}
 	n := r.Pick([]int{0, 1, 2, 2, 3, 3, 4})
 	ch := []Sx{}
 	for i := 0; i < n; i++ {
-		ch = append(ch, c18GenTree(r, depth-1, nextID))
+		ch = append(ch, c18GenTree(r, depth-1, leaf))
 	}
 	return L(A(1), L(ch...))
+}
+
+func c18StrList(xs []string) Sx {
+	out := []Sx{}
+	for _, x := range xs {
+		out = append(out, LStr(x))
+	}
+	return L(out...)
+}
+
+// Components for generated prefixes and names: pairs that share a string
+// prefix without being equal (prod/production/pro, team/teams, a/ab).
+var c18Comps = []string{"team", "teams", "prod", "production", "pro", "dev", "a", "ab", "b", "c", "x"}
+
+// near miss of a component: a string extension or truncation.
+func c18NearComp(r *Rand, c string) string {
+	switch c {
+	case "prod":
+		return []string{"production", "pro"}[r.Intn(2)]
+	case "production":
+		return "prod"
+	case "team":
+		return "teams"
+	case "teams":
+		return "team"
+	case "a":
+		return "ab"
+	case "ab":
+		return "a"
+	}
+	if r.Bool() || len(c) < 2 {
+		return c + "x"
+	}
+	return c[:len(c)-1]
+}
+
+func c18RandPath(r *Rand, maxLen int) []string {
+	n := r.Intn(maxLen + 1)
+	p := make([]string, n)
+	for i := range p {
+		p[i] = c18Comps[r.Intn(len(c18Comps))]
+	}
+	return p
+}
+
+func c18Join(p []string) string { return strings.Join(p, "/") }
+
+// c18GenPrefixSet: allowed prefixes of one instance_name_prefix leaf, drawn
+// around a base path: the base, ancestors, children, siblings sharing a
+// string prefix, the empty name (rarely: it allows everything), random paths.
+func c18GenPrefixSet(r *Rand, base []string) [][]string {
+	k := r.Pick([]int{0, 1, 1, 1, 2, 2, 2, 3, 3, 4})
+	out := [][]string{}
+	for i := 0; i < k; i++ {
+		var p []string
+		switch r.Pick([]int{0, 0, 0, 1, 2, 2, 3, 3, 4, 5, 6}) {
+		case 0:
+			p = append(p, base...)
+		case 1:
+			if len(base) > 0 {
+				p = append(p, base[:r.Intn(len(base))]...)
+				if len(p) == 0 && r.Chance(70) {
+					p = append(p, base...)
+				}
+			}
+		case 2:
+			p = append(append(p, base...), c18Comps[r.Intn(len(c18Comps))])
+		case 3:
+			if len(base) > 0 {
+				p = append(p, base...)
+				p[len(p)-1] = c18NearComp(r, p[len(p)-1])
+			}
+		case 4:
+			p = c18RandPath(r, 3)
+		case 5:
+			if r.Chance(40) {
+				p = []string{} // the empty prefix: allow all
+			} else {
+				p = append(p, base...)
+			}
+		case 6:
+			p = append(append(p, base...), c18RandPath(r, 2)...)
+		}
+		out = append(out, p)
+	}
+	return out
+}
+
+// c18NamesAround: request names around the allowed prefixes: the empty name,
+// every prefix itself, strict ancestors, descendants, near misses (last or an
+// inner component string-extended/truncated, sibling), unrelated names.
+func c18NamesAround(r *Rand, prefixes [][]string, want int) []string {
+	seen := map[string]bool{}
+	out := []string{}
+	add := func(p []string) {
+		s := c18Join(p)
+		if !seen[s] && len(out) < want {
+			seen[s] = true
+			out = append(out, s)
+		}
+	}
+	if r.Chance(60) {
+		add(nil)
+	}
+	for tries := 0; tries < 40 && len(out) < want; tries++ {
+		var p []string
+		if len(prefixes) > 0 {
+			p = append(p, prefixes[r.Intn(len(prefixes))]...)
+		}
+		switch r.Pick([]int{0, 0, 1, 1, 1, 1, 2, 2, 3, 3, 3, 4, 5, 6}) {
+		case 0: // the prefix itself
+		case 1: // strict ancestor (non-empty when possible)
+			for k := 0; k < 4 && len(p) < 2 && len(prefixes) > 0; k++ {
+				p = append([]string(nil), prefixes[r.Intn(len(prefixes))]...)
+			}
+			if len(p) > 1 {
+				p = p[:1+r.Intn(len(p)-1)]
+			} else {
+				p = nil
+			}
+		case 2: // descendant
+			p = append(p, c18Comps[r.Intn(len(c18Comps))])
+			if r.Chance(30) {
+				p = append(p, c18Comps[r.Intn(len(c18Comps))])
+			}
+		case 3: // near miss in the last component
+			if len(p) > 0 {
+				p[len(p)-1] = c18NearComp(r, p[len(p)-1])
+			}
+		case 4: // near miss in some component, plus a descendant
+			if len(p) > 0 {
+				j := r.Intn(len(p))
+				p[j] = c18NearComp(r, p[j])
+				if r.Bool() {
+					p = append(p, c18Comps[r.Intn(len(c18Comps))])
+				}
+			}
+		case 5: // sibling
+			if len(p) > 0 {
+				p[len(p)-1] = c18Comps[r.Intn(len(c18Comps))]
+			}
+		case 6:
+			p = c18RandPath(r, 3)
+		}
+		add(p)
+	}
+	if len(out) == 0 {
+		add(nil)
+	}
+	return out
+}
+
+func c18GenOp(r *Rand, nn int) Sx {
+	switch r.Intn(4) {
+	case 0:
+		return L(A(0), AI(r.Intn(nn)))
+	case 1:
+		return L(A(1), AI(r.Intn(nn)), AI(r.Intn(nn)))
+	case 2:
+		return L(A(2), AI(r.Intn(nn)))
+	}
+	k := r.Intn(6)
+	ns := make([]int, k)
+	for j := range ns {
+		ns[j] = r.Intn(nn)
+	}
+	return L(A(3), LInts(ns))
 }
 
 func (c18) Gen(r *Rand, i int, tier string) Sx {
@@ -215,31 +539,83 @@ func (c18) Gen(r *Rand, i int, tier string) Sx {
 	if tier == "thorough" {
 		depth = 4
 	}
-	g := c18GenTree(r, depth, &id)
-	p := c18GenTree(r, depth, &id)
-	f := c18GenTree(r, depth, &id)
-	var op Sx
-	nn := len(c18Names)
-	switch r.Intn(4) {
-	case 0:
-		op = L(A(0), AI(r.Intn(nn)))
-	case 1:
-		op = L(A(1), AI(r.Intn(nn)), AI(r.Intn(nn)))
-	case 2:
-		op = L(A(2), AI(r.Intn(nn)))
-	default:
-		k := r.Intn(6)
-		ns := make([]int, k)
-		for j := range ns {
-			ns[j] = r.Intn(nn)
-		}
-		op = L(A(3), LInts(ns))
+	if r.Chance(40) {
+		// scripted leaves only, over the legacy alphabet
+		nn := len(c18Names)
+		leaf := func() Sx { return c18GenLeaf(r, &id, nn) }
+		g := c18GenTree(r, depth, leaf)
+		p := c18GenTree(r, depth, leaf)
+		f := c18GenTree(r, depth, leaf)
+		return L(g, p, f, c18GenOp(r, nn), c18StrList(c18Names))
 	}
-	return L(g, p, f, op)
+	// Trees with instance_name_prefix leaves.  First fix the prefix sets (so
+	// that the name alphabet can be chosen around them), then the trees.
+	base := c18RandPath(r, 2)
+	base = append(base, c18Comps[r.Intn(len(c18Comps))])
+	if r.Chance(50) {
+		base = []string{"team", "prod"}
+		if r.Chance(40) {
+			base = append(base, c18Comps[r.Intn(len(c18Comps))])
+		}
+	}
+	nsets := 1 + r.Intn(4)
+	sets := make([][][]string, nsets)
+	all := [][]string{}
+	for k := range sets {
+		sets[k] = c18GenPrefixSet(r, base)
+		all = append(all, sets[k]...)
+	}
+	if len(all) == 0 || r.Chance(15) {
+		all = append(all, base)
+	}
+	names := c18NamesAround(r, all, 5+r.Intn(4))
+	nn := len(names)
+	nextSet := 0
+	prefixLeaf := func() Sx {
+		s := sets[nextSet%nsets]
+		nextSet++
+		ps := make([]string, len(s))
+		for k, p := range s {
+			ps[k] = c18Join(p)
+		}
+		return L(A(2), c18StrList(ps))
+	}
+	kind := r.Intn(10)
+	var leaf func() Sx
+	mk := func() Sx { return c18GenTree(r, depth, leaf) }
+	switch {
+	case kind < 3: // a bare prefix authorizer per operation kind, as configurations have it
+		leaf = prefixLeaf
+		mk = prefixLeaf
+	case kind < 6: // 'any' over prefix authorizers only
+		leaf = prefixLeaf
+	default: // mixed with scripted leaves: an 'any' at the top in most cases
+		leaf = func() Sx {
+			if r.Chance(55) {
+				return prefixLeaf()
+			}
+			return c18GenLeaf(r, &id, nn)
+		}
+		mk = func() Sx {
+			if r.Chance(25) {
+				return c18GenTree(r, depth, leaf)
+			}
+			n := 2 + r.Intn(3)
+			ch := []Sx{}
+			for k := 0; k < n; k++ {
+				ch = append(ch, c18GenTree(r, depth-1, leaf))
+			}
+			return L(A(1), L(ch...))
+		}
+	}
+	g := mk()
+	p := mk()
+	f := mk()
+	return L(g, p, f, c18GenOp(r, nn), c18StrList(names))
 }
 
 func c18Depth(s Sx) int {
-	if s.Nth(0).Int() == 0 {
+	if s.Nth(0).Int() != 1 {
 		return 0
 	}
 	d := 0
@@ -251,8 +627,40 @@ func c18Depth(s Sx) int {
 	return d + 1
 }
 
+// c18Leaves counts scripted and prefix leaves and collects the allowed prefixes.
+func c18Leaves(s Sx, scripted, prefix *int, ps *[]string) {
+	switch s.Nth(0).Int() {
+	case 1:
+		for _, c := range s.Nth(1).List {
+			c18Leaves(c, scripted, prefix, ps)
+		}
+	case 2:
+		*prefix++
+		for _, p := range s.Nth(1).List {
+			x, _ := c18Str(p)
+			*ps = append(*ps, x)
+		}
+	default:
+		*scripted++
+	}
+}
+
+func c18CompPrefix(p, n string) bool {
+	return p == "" || n == p || strings.HasPrefix(n, p+"/")
+}
+
+// Class: <op>/depth<d>/<result>/<leaves>[/<rel>] where <leaves> is scripted,
+// static (prefix leaves only) or mixed, and <rel> relates the involved names
+// to the allowed prefixes of the tree: "anc" = some involved name is not
+// covered and is a non-empty strict ancestor of an allowed prefix (it ends at
+// an interior node of the trie), "near" = some involved name is not covered
+// but extends an allowed prefix as a string, "uncov" = some name is not
+// covered otherwise, "cov" = every involved name is covered.
 func (c18) Class(in, obs Sx) (string, bool) {
 	op := in.Nth(3).Nth(0).Int()
+	if op < 0 || op > 3 {
+		return "bad", false
+	}
 	t := in.Nth([]int{0, 0, 1, 2}[op])
 	res := "rejected-denied"
 	if obs.Nth(0).Int() == 1 {
@@ -261,5 +669,53 @@ func (c18) Class(in, obs Sx) (string, bool) {
 		res = "rejected-failure"
 	}
 	d := c18Depth(t)
-	return []string{"get", "composite", "put", "findmissing"}[op] + "/depth" + strconv.Itoa(d) + "/" + res, d >= 1
+	var nScripted, nPrefix int
+	var ps []string
+	c18Leaves(t, &nScripted, &nPrefix, &ps)
+	cls := []string{"get", "composite", "put", "findmissing"}[op] + "/depth" + strconv.Itoa(d) + "/" + res
+	if nPrefix == 0 {
+		return cls + "/scripted", d >= 1
+	}
+	if nScripted == 0 {
+		cls += "/static"
+	} else {
+		cls += "/mixed"
+	}
+	var involved []Sx
+	switch op {
+	case 0, 1, 2:
+		involved = []Sx{in.Nth(3).Nth(1)}
+	default:
+		involved = in.Nth(3).Nth(1).List
+	}
+	rank := 0
+	for _, x := range involved {
+		name, _ := c18Str(in.Nth(4).Nth(x.Int()))
+		covered, anc, near := false, false, false
+		for _, p := range ps {
+			if c18CompPrefix(p, name) {
+				covered = true
+			}
+			if name != "" && p != name && c18CompPrefix(name, p) {
+				anc = true
+			}
+			if p != "" && strings.HasPrefix(name, p) {
+				near = true
+			}
+		}
+		k := 0
+		switch {
+		case covered:
+		case anc:
+			k = 3
+		case near:
+			k = 2
+		default:
+			k = 1
+		}
+		if k > rank {
+			rank = k
+		}
+	}
+	return cls + "/" + []string{"cov", "uncov", "near", "anc"}[rank], true
 }
